@@ -66,6 +66,12 @@ theorem ostep_newPhrase (sh : Shared D L) : OStep sh (newPhrase env sh) := by
   · exact ostep_panic _ _
   · exact ostep_fuel _
 
+theorem ostep_openPhrase (sh : Shared D L) : OStep sh (openPhrase env sh) := by
+  intro sh' t h
+  rcases openPhrase_cases env h with ⟨h1, _⟩ | ⟨_, rfl⟩
+  · exact ostep_newPhrase env sh sh' t h1
+  · rfl
+
 theorem ostep_newPhraseSimple (sh : Shared D L) : OStep sh (newPhraseSimple sh) := by
   unfold newPhraseSimple
   simp only
@@ -87,7 +93,7 @@ theorem ostep_startSelecting (sh : Shared D L) : OStep sh (startSelecting env sh
   unfold startSelecting
   repeat' split
   all_goals first
-    | exact ostep_newPhrase env _
+    | exact ostep_openPhrase env _
     | exact ostep_newSpecialSymbol _ _
     | ostep_leaf
 
@@ -95,7 +101,7 @@ theorem ostep_startSelectingOrInputSpace (sh : Shared D L) : OStep sh (startSele
   unfold startSelectingOrInputSpace
   repeat' split
   all_goals first
-    | exact ostep_newPhrase env _
+    | exact ostep_openPhrase env _
     | exact ostep_newSpecialSymbol _ _
     | ostep_leaf
 
@@ -360,6 +366,13 @@ theorem retarget_options (s : Selecting) (sh : Shared D L) :
   repeat' split
   all_goals first | exact rfl | trivial
 
+theorem osel_closeIfEmpty (sh0 : Shared D L) (r : SelRes D L) (hr : r.shared.options = sh0.options) :
+    OSel sh0 (closeIfEmpty env r) := by
+  intro x h
+  rcases closeIfEmpty_cases env h with rfl | rfl
+  · exact hr
+  · exact hr
+
 theorem osel_selMove (s : Selecting) (sh : Shared D L) (isJ : Bool) : OSel sh (selMove env s sh isJ) := by
   unfold selMove
   split
@@ -367,13 +380,9 @@ theorem osel_selMove (s : Selecting) (sh : Shared D L) (isJ : Bool) : OSel sh (s
   · dsimp only
     split
     · rename_i sh' s' hq
-      have := (retarget_options env s _).elim hq
-      intro x h; injection h with h; subst h
-      exact this
+      exact osel_closeIfEmpty env _ _ ((retarget_options env s _).elim hq)
     · rename_i sh' t _ hq
-      have := (retarget_options env s _).elim hq
-      intro x h; injection h with h; subst h
-      exact this
+      exact osel_closeIfEmpty env _ _ ((retarget_options env s _).elim hq)
     · exact osel_panic _ _
     · exact osel_fuel _
 
